@@ -117,6 +117,21 @@ func c04FailureRecorded(c *Ctx) {
 				recordedAtOnce := false
 				for _, b := range F.Blocks {
 					for _, in := range b.Instrs {
+						// recorded by a module helper that is handed the result and the error and stores that parameter into
+						// the Error field on every path (`recordFailure(result, err)`)
+						if hc, isCall := in.(*ssa.Call); isCall && hc != call {
+							if g := staticCallee(hc); g != nil && g.Blocks != nil && w.IsProductFn(g) {
+								for i, a := range hc.Call.Args {
+									if isErr(a) && i < len(g.Params) && c02StoresParamIntoError(g, g.Params[i]) {
+										if b == call.Block() {
+											recordedAtOnce = true
+										} else {
+											cutInto(fi, b, cut)
+										}
+									}
+								}
+							}
+						}
 						st, ok := in.(*ssa.Store)
 						if !ok || !isErr(st.Val) {
 							continue
